@@ -45,6 +45,20 @@ def StripForTlc(x):
   return x
 
 
+def NormProg(prog):
+  """Stripped copy with defaults for fields added to the IR over time."""
+  p = StripForTlc(prog)
+  p.setdefault('makes', [])
+  p.setdefault('rec', [])
+  for c in p['rec']:
+    c.setdefault('iterative', False)
+  for pred in p['preds']:
+    pred.setdefault('inline', False)
+    pred.setdefault('order', [])
+    pred.setdefault('limit', -1)
+  return p
+
+
 def _FloatFix(v):
   """Floats are outside the value universe; Avg results are mapped to
   rationals <<"q", num, den>> exactly (SQLite computes AVG in double)."""
@@ -72,11 +86,11 @@ def _Obs(case, res, preds):
 
 
 def TraceLine(case, res, base_res=None):
-  line = {'id': case['id'], 'prog': StripForTlc(case['prog']), 'dev': [],
+  line = {'id': case['id'], 'prog': NormProg(case['prog']), 'dev': [],
           'obs': _Obs(case, res, case['query']), 'base': [], 'qmap': [],
           'bobs': []}
   if case.get('base') is not None:
-    line['base'] = [StripForTlc(case['base'])]
+    line['base'] = [NormProg(case['base'])]
     line['qmap'] = [{'b': b, 'v': v, 'ordered': bool(o)}
                     for b, v, o in case['qmap']]
     if base_res is not None and base_res.get('status') == 'ok':
